@@ -6,11 +6,13 @@ from props import gxcommon as G
 def run(tier, seed):
     res = fx_obligations.c17_fx(tier)
     # parentheses influence grouping only: `( expression )` returns the inner value itself
-    res.add(G.gx(["_parse_primary_expression"], ["term"], "C17/gx", tier))
+    res.add(G.gx(["_parse_primary_expression", "_parse_postfix_expression", "_parse_unary_expression", "_parse_cast_expression"],
+                 ["accept", "term"], "C17/gx", tier))
     try:
         from pyvc.smt_props import run_functions
         import contracts.lexer as LX
-        res.add(run_functions(LX.C17_FUNCTIONS, "C17/smt", tier))
+        from props import lexreplay
+        res.add(lexreplay.attach(run_functions(LX.C17_FUNCTIONS, "C17/smt", tier)))
     except ImportError:
         res.assumptions.append("lexer layout contracts (SMT) not built; layout independence rests on the FX lexer-layout-only-state obligations")
     return res
